@@ -22,6 +22,10 @@ func init() {
 		RunArgAlias(p, r)
 		RunOrderGuardBits(p, r, "tobinary")
 		r.RequireMin("ORDER-GUARD", 1)
+		RunMemoEmit(p, r)
+		RunMemoKey(p, r)
+		r.RequireMin("MEMO-EMIT", 3)
+		r.RequireMin("MEMO-KEY", 1)
 		r.RequireMin("ARG-ALIAS", 5)
 		r.RequireMin("COEFF-SWITCH", 100)
 		r.RequireMin("COEFF-TABLE", 40)
